@@ -2,6 +2,7 @@ package main
 
 import (
 	"fmt"
+	"go/token"
 	"go/types"
 	"strings"
 
@@ -19,6 +20,12 @@ func checkC15(c *Ctx) {
 	ruleEnumerationBoundary(c, "C15.a")
 	ruleCastLayout(c, "C15.b")
 	ruleSetDelegation(c, "C15.c")
+	c.rule("C15.d", "the set's storage is written only by the canonicalising primitives", 1)
+	ruleSetWriters(c, "C15.d")
+	c.rule("C15.e", "enumerators report ok=false only with a witness (a dynamic bound or a failed enumerator call)", 4)
+	ruleEnumerationFailureWitness(c, "C15.e")
+	c.rule("C15.f", "the SearchRes marker is recognised by identity: IsSearchRes consults the marker it compares against", 2)
+	ruleMarkerIdentity(c, "C15.f")
 }
 
 // layoutIdentical: same shape in memory.
@@ -244,4 +251,63 @@ func ruleSetDelegation(c *Ctx, rule string) {
 			}
 		}
 	}
+}
+
+// ruleSetWriters: C15.d. The canonical form (sorted, disjoint, non-adjacent
+// ranges) is established by one primitive, Set.insert (with insertAt): every
+// other mutator reaches the set's storage only through it. A store through a
+// *Set receiver in any other function of imapnum (a bulk append, an aliasing
+// fast path) bypasses the merging of adjacent and overlapping ranges.
+func ruleSetWriters(c *Ctx, rule string) {
+	p := c.P
+	set := p.Named("internal/imapnum", "Set")
+	if set == nil {
+		c.unresolvedRoot("imapnum.Set")
+		return
+	}
+	allowed := map[string]bool{"insert": true, "insertAt": true}
+	have := 0
+	for _, fn := range p.SrcFuncs("internal/imapnum") {
+		if allowed[fn.Name()] {
+			have++
+		}
+	}
+	if have == 0 {
+		c.unresolvedRoot("imapnum.Set.insert / insertAt (the canonicalising primitives)")
+		return
+	}
+	n := 0
+	var bad []string
+	var pos token.Pos
+	for _, fn := range p.SrcFuncs("internal/imapnum") {
+		root := fn
+		for root.Parent() != nil {
+			root = root.Parent()
+		}
+		allInstrs(fn, func(i ssa.Instruction) {
+			st, ok := i.(*ssa.Store)
+			if !ok {
+				return
+			}
+			pt, ok := st.Addr.Type().Underlying().(*types.Pointer)
+			if !ok || !types.Identical(pt.Elem(), set) {
+				return
+			}
+			// a store into a local Set variable under construction is not a mutation of a caller's set
+			if _, isAlloc := st.Addr.(*ssa.Alloc); isAlloc {
+				return
+			}
+			n++
+			if !allowed[root.Name()] {
+				bad = append(bad, fnKey(fn))
+				pos = st.Pos()
+			}
+		})
+	}
+	if n == 0 {
+		c.unresolvedRoot("stores through *imapnum.Set")
+		return
+	}
+	c.check(len(bad) == 0, rule, "Set storage written only by insert/insertAt", pos, fmt.Sprintf("%d stores, all in the canonicalising primitives", n),
+		"the set's storage is written directly by "+strings.Join(uniq(bad), ", ")+": ranges added that way are not merged with adjacent or overlapping ones (non-canonical set: String() no longer round-trips, membership differs from the same insertions made one by one)")
 }
